@@ -66,7 +66,8 @@ def used_from_text(formula):
 
 
 def patterns(tier):
-    cells = [(c, r) for c in ["y", "x", "z", "w", "u", "my var", "f", "g", "v"] for r in (1, 4)]
+    names = ["y", "x", "z", "w", "u", "my var", "f", "g", "v"]
+    cells = [(c, r) for c in names for r in (0, 4)]  # first row and an inner row
     pats = [[]] + [[c] for c in cells]
     pairs = list(itertools.combinations(cells, 2))
     if tier == "quick":
@@ -75,6 +76,7 @@ def patterns(tier):
     # every row incomplete in some used variable
     pats.append([("x", 0), ("x", 1), ("x", 2), ("z", 3), ("y", 4), ("x", 5)])
     pats.append([("x", 0), ("x", 1), ("x", 2), ("y", 3), ("y", 4), ("y", 5)])
+    pats += [[(c, r)] for c in names for r in (1, 5)]  # second and last row alone
     if tier != "quick":
         trip = list(itertools.combinations(cells, 3))
         pats += [list(p) for i, p in enumerate(trip) if i % 9 == 0]
@@ -195,8 +197,7 @@ def harness(env, case):
     except symx.Inconclusive:
         raise
     except Exception as e:
-        if env.mode == "sym":
-            env.c.reach(f"reference design cannot be built: {type(e).__name__}")
+        env.fail("error: raises on a frame without any missing value", {"exc": type(e).__name__, "site": core.repo_site(e), "msg": str(e)[:200]})
         return
     R = mats(ref)
     try:
@@ -267,7 +268,7 @@ def run(tier, seed):
     rep.functions = ["formulae.matrices.design_matrices (cols_to_select, incomplete_rows, na_action)", "formulae.terms.terms Model/Term/GroupSpecificTerm/Response.var_names",
                      "formulae.terms.variable.Variable.var_names", "formulae.terms.call.Call.var_names", "formulae.terms.call_utils.CallVarsExtractor.*"]
     cs = cases(tier)
-    rep.bounds = {"formulas": [f[0] for f in FORMULAS], "missingness patterns": f"{len(patterns(tier))} subsets of <= {2 if tier == 'quick' else 3} cells over columns y x z w u 'my var' f g v (used and unused) x rows 1, 4 of a 6-row frame",
+    rep.bounds = {"formulas": [f[0] for f in FORMULAS], "missingness patterns": f"{len(patterns(tier))} subsets of <= {2 if tier == 'quick' else 3} cells over columns y x z w u 'my var' f g v (used and unused) x rows 0, 4 (singles also rows 1, 5) of a 6-row frame",
                   "na_action": ["drop", "error", "pass", "raise", None], "cases": len(cs)}
     rep.outside = ["'pass' with a missing categorical cell or a non-pointwise transform (the statement restricts pass to numeric variables in plain variables and pointwise calls)", "floats"]
     rep.stubs = pipe.STUBS
